@@ -10,7 +10,7 @@ use crate::verif::probes::{Big, Leaf, Zst};
 /// "deallocated dynamic object" failure INSIDE this function (driver: `mustfail=expect_freed`).
 #[inline(never)]
 pub(crate) fn expect_freed(p: *const u8) -> u8 {
-    unsafe { core::ptr::read_volatile(p) }
+    unsafe { *p }
 }
 
 fn alloc_dealloc_roundtrip<T: Trace + 'static>() {
